@@ -66,11 +66,16 @@ def oracle(cfg: e3.E3Config, obs, msgs):
     spec = cfg.spec
     if obs.outcome[0] != 'return':
         return [('run-failed', f'run_tasks did not return: {obs.outcome[1]!r}')]
+    import collections
+    import re
+    seen_tokens = collections.Counter(re.findall(r'<\d+\.\d+(?:\.\d+)?>', '\n'.join(msgs)))
     for i, pat in cfg.base.emit:
         label = spec.labels[i]
         for tok in U.emit_tokens(label, pat):
-            n = sum(m.count(tok) for m in msgs)
+            n = seen_tokens.get(tok, 0)
             kind = pat.split('+')[int(tok.split('.')[1].rstrip('>'))]
+            if kind.startswith('burst'):
+                kind = 'burst'
             if n == 0:
                 out.append((f'lost:{kind}', f'fragment {tok} ({kind}, pattern {pat!r}) of node {i} was never delivered to the caller\'s labtech logger before run_tasks returned'))
             elif n > 1:
@@ -114,6 +119,15 @@ def configs(tier: str):
             for be in ('fork', 'spawn'):
                 for mw in (1, 2):
                     out.append(e3.E3Config(base=base, backend=be, max_workers=mw, log_mode='choice', liveness_choice=False))
+    # output of failing tasks, whitespace-led output, and a burst larger than any plausible queue bound
+    extra = [('print', 'log', (0,)), ('print+err', 'print+flush', (0,)), ('log+print', 'print', (1,)), ('print', 'print', (0, 1)),
+             ('iprint+flush+nprint', 'log', ()), ('nprint', 'iprint', ()), ('burst1200', 'log', ())]
+    for pa, pb, faults in extra:
+        for shape in shapes2[:1] if pa.startswith('burst') else shapes2:
+            base = e2.Config(spec=mk_spec(shape), requested=tuple((i, False) for i in range(2)), emit=((0, pa), (1, pb)), faults=faults)
+            for be in ('fork', 'spawn'):
+                for mw in ((2,) if pa.startswith('burst') else (1, 2)):
+                    out.append(e3.E3Config(base=base, backend=be, max_workers=mw, log_mode='choice', liveness_choice=False))
     if tier != 'quick':
         for shape in [((), (), ()), ((), (), (0, 1)), ((), (0,), (1,))]:
             for pats3 in itertools.product(('log', 'print', 'print+flush'), repeat=3):
@@ -132,7 +146,10 @@ def run(tier: str, seed: int) -> Result:
     silence_labtech()
     cfgs = rotate(configs(tier), seed)
     cap = 12000 if tier == "quick" else 60000
-    work = [(c, cap, None) for c in cfgs]
+    # the burst harness (1200 records from one task) is explored to one deviation from the default
+    # schedule only; everything else exhaustively
+    work = [(c, cap, 1 if any('burst' in p for _, p in c.base.emit) else None) for c in cfgs]
+    n_bounded = sum(1 for w in work if w[2] is not None)
     viols = []
     ex = states = trans = capped = multi = 0
     samples = []
@@ -153,6 +170,7 @@ def run(tier: str, seed: int) -> Result:
                  'oracle when run_tasks returns: each emitted fragment received exactly once; distinct_nontrivial = configurations'),
         'configurations_with_several_delivered_sets': multi,
         'capped_configurations': capped,
+        'configurations_explored_to_one_deviation_only': n_bounded,
         'exhaustive': capped == 0,
     }
     res = Result('C19', 'model_checking', cov, assumptions=[
